@@ -78,7 +78,7 @@ def main(argv=None):
     spec = PROPERTIES[pid]
     tier = a.tier
     t0 = time.time()
-    timeout_ms = 10000 if tier == "quick" else 60000
+    timeout_ms = 20000 if tier == "quick" else 60000
     known = load_known()
 
     # ---------------------------------------------------------------- collect units
